@@ -805,5 +805,6 @@ func locksExtra(t *tr) string {
 	b.WriteString(locksAmmoFlows(t, scanned))
 	b.WriteString(locksPooledEscapes(t, scanned))
 	b.WriteString(locksIndexFacts(t, loaded))
+	b.WriteString(locksSetupCallers(t, loaded))
 	return b.String()
 }
